@@ -179,6 +179,13 @@ MULTI = [
      ['One', 'Two', 'Three']),
     ('verbatim', 'A \\begin{verbatim}\\foo{no}\\end{verbatim} \\verb|\\foo{no}| \\foo{Yes}', 'foo',
      ['Yes']),
+    # markers of a skipped region may carry a remark on their comment line (README: the comment
+    # only has to START with the marker)
+    ('skip_remark', 'A \\foo{a}\n%%% LT-SKIP-BEGIN (old part)\n\\foo{no}\n%%% LT-SKIP-END of old part\n'
+                    'B \\foo{b}\n%%% LT-SKIP-BEGIN\n\\foo{no}\n%%% LT-SKIP-END   \nC \\foo{c}', 'foo',
+     ['a', 'b', 'c']),
+    ('skip_remark2', '\\foo{a}\n%%% LT-SKIP-BEGIN\n\\foo{no}\n%%% LT-SKIP-END% x\n\\foo{b}', 'foo',
+     ['a', 'b']),
 ]
 
 
